@@ -25,6 +25,7 @@ pub(crate) mod verif_array {
     pub(crate) const M_LIT_NUMBER: u8 = 5; // not a collection: error
     pub(crate) const M_COMPUTED_ERR: u8 = 6;
     pub(crate) const M_COMPUTED_BOOL: u8 = 7; // computed non-collection: error
+    pub(crate) const M_COMPUTED_ZERO: u8 = 8; // computed FALSY non-collection (the number 0): still an error, not "empty"
 
     /// `epat` / `ppat`: bit j set = element j / predicate call j succeeds (Ok); clear = Err.
     pub(crate) fn body_quant(is_all: bool, mode: u8, n: usize, epat: u32, ppat: u32) {
@@ -44,6 +45,7 @@ pub(crate) mod verif_array {
         let computed_arr = MD::new(Value::Array(elems));
         let null_v = MD::new(Value::Null);
         let bool_v = MD::new(Value::Bool(true));
+        let zero_v = MD::new(num(0));
         // node 0: the collection operand as written in the rule
         let coll_node: MD<Value> = match mode {
             M_LIT_ARRAY => {
@@ -65,6 +67,7 @@ pub(crate) mod verif_array {
             M_COMPUTED_RAW => (2, &*computed_arr as *const Value),
             M_COMPUTED_NULL => (1, &*null_v as *const Value),
             M_COMPUTED_BOOL => (1, &*bool_v as *const Value),
+            M_COMPUTED_ZERO => (1, &*zero_v as *const Value),
             M_COMPUTED_ERR => (0, &*null_v as *const Value),
             // a literal operand: if the body routes it through the evaluator it evaluates to itself
             _ => (2, &*coll_node as *const Value),
@@ -104,7 +107,7 @@ pub(crate) mod verif_array {
             k += 1;
         }
         let is_collection = mode == M_LIT_ARRAY || mode == M_COMPUTED_NEW || mode == M_COMPUTED_RAW;
-        if mode == M_COMPUTED_ERR || mode == M_LIT_NUMBER || mode == M_COMPUTED_BOOL {
+        if mode == M_COMPUTED_ERR || mode == M_LIT_NUMBER || mode == M_COMPUTED_BOOL || mode == M_COMPUTED_ZERO {
             want = Err(());
         } else if !is_collection || n == 0 {
             want = Ok(false); // null and empty collections
@@ -207,6 +210,9 @@ pub(crate) mod verif_array {
     //@ob name=C14.all.cbool.0.e0.p0 harness=k_c14_all_cbool_0_e0_p0 props=C14,C04,C06,C01 tier=thorough strength=bounded bound="computed boolean (not a collection); 0 elements; element/predicate success pattern e=0b0 p=0b0; values and predicate answers symbolic" fns=op::array::all stubs=4 timeout=200 cutdrop=2 group=medium
     //@ desc="all: truth value, error cases, short-circuit evaluation log and scoping (literal-array elements evaluated against the outer data, computed elements passed as data UNPARSED, predicate sees the element) equal the spec"
     quant_harness!(k_c14_all_cbool_0_e0_p0, true, 7, 0, 0, 0, 3);
+    //@ob name=C14.all.czero.0.e0.p0 harness=k_c14_all_czero_0_e0_p0 props=C14,C04,C06,C01 tier=quick strength=bounded bound="computed number 0 (falsy, but not a collection: an error, not empty); 0 elements; element/predicate success pattern e=0b0 p=0b0; values and predicate answers symbolic" fns=op::array::all stubs=4 timeout=200 cutdrop=2 group=medium
+    //@ desc="all: truth value, error cases, short-circuit evaluation log and scoping (literal-array elements evaluated against the outer data, computed elements passed as data UNPARSED, predicate sees the element) equal the spec"
+    quant_harness!(k_c14_all_czero_0_e0_p0, true, 8, 0, 0, 0, 3);
     //@ob name=C14.all.lit.2.e1.p3 harness=k_c14_all_lit_2_e1_p3 props=C14,C04,C06,C01 tier=off strength=bounded bound="literal array, second element expression fails; 2 elements; element/predicate success pattern e=0b1 p=0b11; values and predicate answers symbolic" fns=op::array::all stubs=4 timeout=200 cutdrop=1 group=medium
     //@ desc="all: truth value, error cases, short-circuit evaluation log and scoping (literal-array elements evaluated against the outer data, computed elements passed as data UNPARSED, predicate sees the element) equal the spec"
     quant_harness!(k_c14_all_lit_2_e1_p3, true, 0, 2, 1, 3, 5);
@@ -252,6 +258,9 @@ pub(crate) mod verif_array {
     //@ob name=C14.some.cbool.0.e0.p0 harness=k_c14_some_cbool_0_e0_p0 props=C14,C04,C06,C01 tier=thorough strength=bounded bound="computed boolean (not a collection); 0 elements; element/predicate success pattern e=0b0 p=0b0; values and predicate answers symbolic" fns=op::array::some stubs=4 timeout=200 cutdrop=2 group=medium
     //@ desc="some: truth value, error cases, short-circuit evaluation log and scoping (literal-array elements evaluated against the outer data, computed elements passed as data UNPARSED, predicate sees the element) equal the spec"
     quant_harness!(k_c14_some_cbool_0_e0_p0, false, 7, 0, 0, 0, 3);
+    //@ob name=C14.some.czero.0.e0.p0 harness=k_c14_some_czero_0_e0_p0 props=C14,C04,C06,C01 tier=quick strength=bounded bound="computed number 0 (falsy, but not a collection: an error, not empty); 0 elements; element/predicate success pattern e=0b0 p=0b0; values and predicate answers symbolic" fns=op::array::some stubs=4 timeout=200 cutdrop=2 group=medium
+    //@ desc="some: truth value, error cases, short-circuit evaluation log and scoping (literal-array elements evaluated against the outer data, computed elements passed as data UNPARSED, predicate sees the element) equal the spec"
+    quant_harness!(k_c14_some_czero_0_e0_p0, false, 8, 0, 0, 0, 3);
     //@ob name=C14.some.lit.2.e1.p3 harness=k_c14_some_lit_2_e1_p3 props=C14,C04,C06,C01 tier=off strength=bounded bound="literal array, second element expression fails; 2 elements; element/predicate success pattern e=0b1 p=0b11; values and predicate answers symbolic" fns=op::array::some stubs=4 timeout=200 cutdrop=1 group=medium
     //@ desc="some: truth value, error cases, short-circuit evaluation log and scoping (literal-array elements evaluated against the outer data, computed elements passed as data UNPARSED, predicate sees the element) equal the spec"
     quant_harness!(k_c14_some_lit_2_e1_p3, false, 0, 2, 1, 3, 5);
